@@ -203,6 +203,11 @@ class ExcelCompiler:
             else:
                 return a_cell.value
 
+        # on a repeated save the keys written by the previous save are still
+        # here, remove them so that the saved order of the keys is the same
+        for key in ('cycles', 'excel_hash', 'cell_map', 'filename'):
+            extra_data.pop(key, None)
+
         extra_data.update(dict(
             cycles=self.cycles,
             excel_hash=self._excel_file_md5_digest,
